@@ -4,7 +4,7 @@ import OV.Drivers.Loop
 
 `C20 save <deep 0|1> <verbose 0|1> <k|-> <dir|-> <name> <files|-> <inits|->`
   files: `f:seed:len;…` (data files present before the call; content = `gen seed len`)
-  inits: `name:sub:M:seed:len:np` | `name:sub:E:file:off:len:valid` | `name:sub:U`, `;`-separated, in `model.graphs()` order
+  inits: `name:sub:M:seed:len:np` | `name:sub:E:file:off:len:valid` | `name:sub:U` | `name:sub:A:j` (alias of the j-th), `;`-separated, in `model.graphs()` order
 `C20 layout <cur> <size,size,…|->`  →  `off:len,…`
 Output of `save`: `res=… | calls=… | trace=… | cb=… | cv=… | heap=… | fs=… | load=…` -/
 namespace OV.Drivers.C20
@@ -36,10 +36,14 @@ structure PI where
   name : String
   sub : Bool
   ref : Option TRef
+  alias : Option Nat := none   -- `A:<j>`: the same tensor object as the j-th initializer of the line
 
 def parseInit (t : String) : Option PI :=
   match t.splitOn ":" with
   | [n, sub, "U"] => some { name := n, sub := sub == "1", ref := none }
+  | [n, sub, "A", j] => do
+    let j ← j.toNat?
+    pure { name := n, sub := sub == "1", ref := none, alias := some j }
   | [n, sub, "M", seed, len, np] => do
     let seed ← seed.toNat?; let len ← len.toNat?
     pure { name := n, sub := sub == "1", ref := some (.mem (gen seed len) (np == "1")) }
@@ -51,16 +55,24 @@ def parseInit (t : String) : Option PI :=
 def parseInits (s : String) : Option (List PI) :=
   if s == "-" then some [] else (s.splitOn ";").mapM parseInit
 
-def mkModel : List PI → Nat → Model
+/-- Object ids are handed out in order to the initializers that own a tensor; aliases are resolved afterwards. -/
+def mkModelAux : List PI → Nat → Model
   | [], _ => { sig := [], cv := [], heap := [] }
   | p :: ps, next =>
     match p.ref with
     | none =>
-      let m := mkModel ps next
+      let m := mkModelAux ps next
       { m with sig := (p.name, p.sub) :: m.sig, cv := none :: m.cv }
     | some t =>
-      let m := mkModel ps (next + 1)
-      { sig := (p.name, p.sub) :: m.sig, cv := some next :: m.cv, heap := t :: m.heap }
+      let m := mkModelAux ps (next + 1)
+      { sig := (p.name, p.sub) :: m.sig, cv := some next :: m.cv, heap := t :: m.heap, tnames := p.name :: m.tnames }
+
+def mkModel (pis : List PI) (_ : Nat) : Model :=
+  let m := mkModelAux pis 0
+  { m with cv := (pis.zip m.cv).map fun (x : PI × Option Nat) =>
+      match x.1.alias with
+      | some j => (m.cv[j]?).getD none
+      | none => x.2 }
 
 def showErr : Err → String
   | .valueError => "ValueError" | .osError => "OSError" | .typeError => "TypeError"
